@@ -393,6 +393,20 @@ def check_assembly(rep, prog, m):
     jt = [n for n in lp.body if isinstance(n, ast.Assign) and ast.unparse(n.targets[0]) == 'J_temp']
     ok = bool(jt) and mat(jt[0].value, None) == ('outer', 'grad_temp', 'grad_temp')
     rep.ob('R-ALG', 'get_godambe J term', ok, ast.unparse(jt[0]) if jt else '', rel, jt[0].lineno if jt else lp.lineno, what='J accumulates outer(g, g)')
+    # shapes: the score accumulator and the gradient it accumulates must have the same shape - (n,1) + (n,) would broadcast
+    # to an (n,n) matrix without any error
+    def alloc_shape(fn_, name):
+        for n_ in own_nodes(fn_):
+            if isinstance(n_, ast.Assign) and ast.unparse(n_.targets[0]) == name and isinstance(n_.value, ast.Call) and _last(dotted(n_.value.func)) in ('zeros', 'empty', 'ones'):
+                a0 = n_.value.args[0]
+                return tuple(ast.unparse(x) for x in a0.elts) if isinstance(a0, (ast.Tuple, ast.List)) else (ast.unparse(a0),)
+        return None
+    sh_g = alloc_shape(prog.func(GOD, 'get_grad'), 'grad')
+    sh_c = alloc_shape(g, 'cU')
+    acc = [n for n in own_nodes(g) if isinstance(n, ast.Assign) and ast.unparse(n.targets[0]) == 'cU' and isinstance(n.value, ast.BinOp) and isinstance(n.value.op, ast.Add)]
+    oksh = sh_g is not None and sh_c is not None and sh_g == sh_c and len(acc) == 1 and {ast.unparse(acc[0].value.left), ast.unparse(acc[0].value.right)} == {'cU', 'grad_temp'}
+    rep.ob('R-SHAPE', 'get_godambe score accumulator', oksh, 'get_grad allocates %s; cU is allocated %s and accumulates grad_temp' % (sh_g, sh_c), rel, g.lineno,
+           what='the summed score has the shape of one gradient (no silent broadcasting of a column against a flat vector)')
     gd = [n for n in g.body if isinstance(n, ast.Assign) and ast.unparse(n.targets[0]) == 'godambe']
     got = mat(gd[0].value, singles) if gd else None
     rep.ob('R-ALG', 'get_godambe G', got == ('dot', ['hess', ('inv', 'J'), 'hess']), 'godambe = %s' % (got,), rel, gd[0].lineno if gd else g.lineno, what='G = H J^-1 H')
